@@ -117,6 +117,7 @@ def scenario(spec, recorder):
         ph.run_projected_dos(use_tetrahedron_method=True)
         ph.run_mesh(spec["mesh"], is_mesh_symmetry=spec["ms"])
         ph.run_total_dos(use_tetrahedron_method=True)
+        ph.run_total_dos(use_tetrahedron_method=True, freq_min=float(np.abs(ph.mesh.frequencies).max()) + 0.3, freq_max=-0.2, freq_pitch=-0.37)  # descending points
         m = ph.mesh
         f = m.frequencies
         thm = TetrahedronMesh(ph.primitive, f, m.mesh_numbers, np.array(m.grid_address, dtype="int64"),
